@@ -308,7 +308,7 @@ def make_jobs(Job, tier, seed, feature_sets, engine_keys, canary=True, light=Fal
             for fi in ([0] if light else [0, 2]):
                 fam = ['sym' if s == fi else ct[s] for s in range(3)]
                 jobs.append(Job('%s:n3-f%d-seed%d' % (fk, fi, i), mod, 'query_job', {'n': 3, 'fam': fam, 'focus': fi, 'features': fl}, engine_key=ek, stop_after_violations=40))
-        if tier == 'thorough' and not light:
+        if tier == 'thorough' and not light and ek == engine_keys[0]:
             fam = ['sym'] + fam4[1:]
             jobs.append(Job('%s:n4-f0' % fk, mod, 'query_job', {'n': 4, 'fam': fam, 'focus': 0, 'features': fl}, engine_key=ek, stop_after_violations=40))
         jobs.append(Job('%s:counts-kernel' % fk, mod, 'counts_kernel_job', {}, engine_key=ek))
